@@ -276,7 +276,7 @@ def check_segments_eval(chk) -> bool:
     fi = repo.func(T2, "Structure.connected_residues")
     bad: List[str] = []
     try:
-        for tag, res, links in SEGMENT_CASES:
+        for tag0, res, links in SEGMENT_CASES:
             linkset = set(links)
 
             def mk(r):
@@ -289,23 +289,26 @@ def check_segments_eval(chk) -> bool:
             env: Dict[str, Any] = {}
             env.update(module_callables(repo, T2, outer=env))
             # an interpreted Structure whose residues are given: helpers the method calls on `self` are the class's own
-            me = Instance(repo, T2, "Structure", env, residues=[mk(r) for r in res])
-            call = func_callable(repo, T2, fi.node, env, max_steps=20000)
-            try:
-                got = call(me)
-            except Raised as ex:
-                bad.append(f"{tag}: raises {ex.name}")
-                continue
-            except Unknown:
-                raise
-            except Exception as ex:
-                bad.append(f"{tag}: raises {type(ex).__name__} ({str(ex)[:50]})")
-                continue
-            got_keys = sorted([[x.key for x in seg] for seg in got]) if isinstance(got, list) and all(isinstance(seg, list) for seg in got) else None
-            want = sorted(_segments(res, linkset))
-            if got_keys != want:
-                show = lambda segs: [["/".join(str(x) for x in r if x is not None) for r in seg] for seg in (segs or [])]
-                bad.append(f"{tag}: segments {show(got_keys)}, expected {show(want)}")
+            # the segments do not depend on the format tag of the table: both tags are evaluated
+            for fmt in ("PDB", "mmCIF"):
+                tag = f"{tag0}, format {fmt}"
+                me = Instance(repo, T2, "Structure", env, residues=[mk(r) for r in res], format=fmt)
+                call = func_callable(repo, T2, fi.node, env, max_steps=20000)
+                try:
+                    got = call(me)
+                except Raised as ex:
+                    bad.append(f"{tag}: raises {ex.name}")
+                    continue
+                except Unknown:
+                    raise
+                except Exception as ex:
+                    bad.append(f"{tag}: raises {type(ex).__name__} ({str(ex)[:50]})")
+                    continue
+                got_keys = sorted([[x.key for x in seg] for seg in got]) if isinstance(got, list) and all(isinstance(seg, list) for seg in got) else None
+                want = sorted(_segments(res, linkset))
+                if got_keys != want:
+                    show = lambda segs: [["/".join(str(x) for x in r if x is not None) for r in seg] for seg in (segs or [])]
+                    bad.append(f"{tag}: segments {show(got_keys)}, expected {show(want)}")
     except Unknown as ex:
         chk.ok("connect-eval", fi.where, f"connected_residues is not evaluable on representative residue lists ({str(ex)[:80]}): the pinned-form rule decides")
         return False
